@@ -113,7 +113,7 @@ def o2_8_db_recover(mir, tier):
                 posts.append(('the logs are replayed before the manifest was read', BoolVal('version_set_recover' in kinds and 'recover_logs' in kinds and kinds.index('version_set_recover') < kinds.index('recover_logs'))))
             res.cases['CURRENT %s: %s %s' % (current, 'Ok' if ok else 'Err', ','.join(kinds))] = 1
             for label, post, m in ex.check_posts(posts, pc):
-                res.violations.append({'label': label, 'events': [str(e)[:60] for e in evs], 'model': {str(x): mval(m, x) for x in (cim, eie)}, 'replay': ['fresh_open_manifests'] if 'file counter in the initial' in label else (['reopen_modes'] if current != 'io-error' else ['unreadable_current'])})
+                res.violations.append({'label': label, 'events': [str(e)[:60] for e in evs], 'model': {str(x): mval(m, x) for x in (cim, eie)}, 'replay': ['fresh_open_manifests'] if 'file counter in the initial' in label else ['torn_first_manifest'] if 'opened for appending' in label else (['reopen_modes'] if current != 'io-error' else ['unreadable_current'])})
         db = mir.mk_struct('DB', options={'abstract': True, '__ty': 'DbOptions'}, db_lock=Enum('Some', ({'abstract': True},)), file_name_handler={'abstract': True, '__ty': 'FileNameHandler'})
         g = mir.mk_struct('GuardedDbFields', version_set={'abstract': True, '__ty': 'VersionSet'})
         env = {'$state': {'events': []}, '$db': db, '$g': g, '$guard': Ref('$g')}
@@ -132,6 +132,8 @@ def o2_8_confirm(v, out):
     if out.get('_rc') != 0: return (False, 'native run failed: %s' % out.get('_stderr', '')[-300:])
     if v['replay'][0] == 'fresh_open_manifests':
         return (out.get('created_twice') == 'true', 'native: manifests created during the first open of a new database (reuse_log_files off): %s' % out.get('manifest_creates'))
+    if v['replay'][0] == 'torn_first_manifest':
+        return (out.get('all_ok') != 'true', 'native: torn first manifest record (bytes present: created / reopened): %s' % out.get('results'))
     if v['replay'][0] == 'unreadable_current':
         bad = out.get('open_with_unreadable_current') != 'err' or out.get('mutating_ops_during_refused_open') != '0' or out.get('reopen_get') != 'v'
         return (bad, 'open with an unreadable CURRENT: %s, mutating file operations during it: %s, data after a later reopen: %s' % (out.get('open_with_unreadable_current'), out.get('mutating_ops_during_refused_open'), out.get('reopen_get')))
